@@ -17,6 +17,10 @@ CLAIMED = {
              note=COMMON_NOTE + ' integer-exact model; free-symbol cos/sin; outlines (transform-then-outline) are outside.', ref='3.5'),
  'C09': dict(text='Element bounding boxes for every repetition kind, Reference::bounding_box on a two-level hierarchy with the real Map<GeometryInfo> cache (corner shortcut and hull branch, fresh / prefilled / reused cache), and the point set Reference::repeat_and_transform feeds to the hull (all repetition offsets reached in 8 directions) are proved equal to the min/max over fully transformed, fully repeated geometry computed by the harness.',
              note=COMMON_NOTE + ' qhull replaced by the identity hull (hull minimality/ordering not decided); is_multiple_of_pi_over_2 by contract; integer-exact model with free cos/sin.', ref='3.6'),
+ 'C16': dict(text='One library edit (replace_cell cell->cell / cell->raw cell, rename_cell) or graph query (top_level, get_dependencies direct and recursive) from an ARBITRARY small library - reference kinds, targets and names symbolic - is proved equal to an abstract graph model kept by the harness, including the frame (untouched references bit-identical); because the pre-state is arbitrary one step covers edit histories of any length.',
+             note=COMMON_NOTE + ' Map<Cell*>/Map<RawCell*> replaced by an abstract association list in the graph queries (C20 proves Map<T>), strlen/copy_string by contract for 1-character names; recursive query on enumerated acyclic graph shapes.', ref='3.8'),
+ 'C18': dict(text='Modular solver decision of the truncation property: (1) the real gdsii_read_record on every stream of 0..12 arbitrary bytes is a correct short-read detector; (2) each GDSII reader (read_gds, read_rawcells, gds_units, gds_timestamp, gds_info), with the record reader replaced by that contract, is executed symbolically on record prefixes of enumerated kinds with arbitrary payloads followed by a short read: it returns (unwinding assertions = no hang), touches no invalid memory (CBMC pointer checks = no double free), releases its handle and never returns a shortened layout; (3) oas_precision / oas_validate on the OASIS magic plus arbitrary bytes at every cut position.',
+             note=COMMON_NOTE + ' in-memory FILE model with handle counting; crc32 as a rolling function; record buffers shrunk from 65537 to 64 bytes by the translator; memory leaks are not asserted.', ref='3.12'),
 }
 NA = {
 }
